@@ -57,3 +57,10 @@ package renderer
 //@   ensures int(result) < len(e.layer.Keys) && e.layer.Keys[int(result)] == key
 //@   ensures forall(s, string, implies(haskey(e.keys, s), int(e.keys[s]) < len(e.layer.Keys) && e.layer.Keys[int(e.keys[s])] == s))
 //@   ensures forall(i, 0, old(len(e.layer.Keys)), e.layer.Keys[i] == old(e.layer.Keys[i]))
+
+// ---- C34 -------------------------------------------------------------------------
+// distance is float arithmetic (outside the verifier); both simplifiers see it as
+// one deterministic function of the three points.
+//@ func distance
+//@   trusted
+//@   function
